@@ -34,6 +34,9 @@ func c16SchemaSingles(e *Env) {
 					{"[AddSchema]", []schema.Change{&schema.AddSchema{S: s}}},
 					{"[DropSchema]", []schema.Change{&schema.DropSchema{S: s}}},
 					{"[ModifySchema]", []schema.Change{&schema.ModifySchema{S: s, Changes: []schema.Change{ma}}}},
+					{"[AddSchema IF NOT EXISTS]", []schema.Change{&schema.AddSchema{S: s, Extra: []schema.Clause{&schema.IfNotExists{}}}}},
+					{"[DropSchema IF EXISTS]", []schema.Change{&schema.DropSchema{S: s, Extra: []schema.Clause{&schema.IfExists{}}}}},
+					{"[AddSchema IF NOT EXISTS, AddTable]", []schema.Change{&schema.AddSchema{S: s, Extra: []schema.Clause{&schema.IfNotExists{}}}, &schema.AddTable{T: t}}},
 					{"[AddSchema, AddTable]", []schema.Change{&schema.AddSchema{S: s}, &schema.AddTable{T: t}}},
 					{"[AddTable, ModifySchema]", []schema.Change{&schema.AddTable{T: t}, &schema.ModifySchema{S: s, Changes: []schema.Change{ma}}}},
 					{"[DropTable, DropSchema]", []schema.Change{&schema.DropTable{T: t}, &schema.DropSchema{S: s}}},
